@@ -145,8 +145,11 @@ def verdicts(chk: Check) -> None:
         chk.ob('DOM-verdict-not-dropped', f_, bool(asks) and n_acc >= 1 and not skipped, f'{what}: of {n_acc} accepting path(s) none skips the configured validator'
                + (f' (skipping: test/return lines {skipped[:2]})' if skipped else ''), kind='validator-always-asked')
     vpn = pv.params[1]
+    from .common import sentinels_are_unique_objects
+    sentinels_are_unique_objects(chk, 'DOM-verdict-not-dropped')
     asked_on_every_accepting_path(pv, {f'{vpn} is UNSPECIFIED': False, 'self.validator is None': False, 'self._valid_type is None': True}, 'Port.validate, a value given and a validator configured')
     nv = prog.func('ports.PortNamespace.validate')
+    namespace_value_is_mapping(chk, 'DOM-verdict-not-dropped')
     asked_on_every_accepting_path(nv, {'self.validator is None': False, f'{nv.params[1]}': True}, 'PortNamespace.validate, values given and a validator configured')
     for c in [x for x in calls_in_func(nv) if norm(x.func) == 'self.validator']:
         ff = chk.ctx.facts.analyse(nv)
@@ -451,3 +454,34 @@ def typed_dynamic_leaf_checked(chk: Check, rule: str) -> None:
            kind='typed-dict-always-recursed')
     chk.ob(rule, vd, not bad and n >= 2, f'typed dynamic namespace, non-dict value: of {n} paths none accepts (returns None) without passing the isinstance(valid_type) test' +
            (f'; accepting paths that skip it (test/return lines): {bad[:2]}' if bad else ''), kind='typed-leaf-always-checked')
+
+
+def namespace_value_is_mapping(chk: Check, rule: str) -> None:
+    """The value given for a port namespace has to be a mapping (or nothing at all): whatever else it is -- '' / [] / 0 / False included -- every
+    path through PortNamespace.validate must end in an error.  Decision table over ``isinstance(value, Mapping)`` = False and ``value is None`` = False
+    (a test on the value's truthiness may NOT stand in for these: falsy is not "absent").  Shared with C12 (out('ns', 0))."""
+    from ..decisions import leaf as _leaf, paths_under as _paths
+    prog = chk.prog
+    nv = prog.func('ports.PortNamespace.validate')
+    ff = chk.ctx.facts.analyse(nv)
+    pvn = nv.params[1]
+    tests = [t for t in ff.cfg.nodes if t.kind == 'test' and 'Mapping' in norm(t.ast.test) and f'isinstance({pvn}' in norm(t.ast.test)]
+    if not tests:
+        chk.ob(rule, nv, False, 'PortNamespace.validate has no Mapping test on the value it is given', kind='namespace-value-is-mapping')
+        return
+    k_map, pol = _leaf(ff, tests[0].ast.test.operand if isinstance(tests[0].ast.test, ast.UnaryOp) else tests[0].ast.test)
+    val = {k_map: False if pol else True, f'{pvn} is None': False}
+    accepted = []
+    for path in _paths(ff, val):
+        if path[-1] is not ff.cfg.exit:
+            continue
+        rets = [m for m in path if m.kind == 'return']
+        v_ = rets[-1].ast.value if rets else None
+        if v_ is None or (isinstance(v_, ast.Constant) and v_.value is None) or not (isinstance(v_, ast.Call) and last_name(v_) == 'PortValidationError'):
+            # did the path re-bind the value first?  then the Mapping test no longer speaks about what the caller passed
+            reb = [m for m in path if m.kind == 'stmt' and isinstance(m.ast, ast.Assign) and norm(m.ast.targets[0]) == pvn]
+            if reb:
+                accepted.append(norm(reb[0].ast)[:60] + ' after ' + (norm([t for t in path[:path.index(reb[0])] if t.kind == 'test'][-1].ast.test)[:40] if [t for t in path[:path.index(reb[0])] if t.kind == 'test'] else 'nothing'))
+    chk.ob(rule, nv, not accepted, 'a value that is neither a mapping nor None is an error on every path through PortNamespace.validate' + ('' if not accepted else
+           f': it is replaced before the Mapping test is reached ({sorted(set(accepted))[:2]}) -- a falsy non-mapping (\'\', [], 0, False) passes as an empty namespace'),
+           node=tests[0].ast, kind='namespace-value-is-mapping')
